@@ -12,6 +12,7 @@ import Driver.Sweep2
 import Driver.Export
 import Driver.Progress
 import Driver.Bool3
+import Driver.CrossOps
 /-! `mvdriver`: reads one request per line on stdin, prints one answer per line.
 First token = engine. -/
 
@@ -31,6 +32,7 @@ def dispatch (line : String) : String :=
   | "export" :: rest => ExportDrv.handle rest
   | "progress" :: rest => ProgressDrv.handle rest
   | "bool3" :: rest => Bool3Drv.handle rest
+  | "crossops" :: rest => CrossOpsDrv.handle rest
   | _ => "bad-engine"
 
 partial def loop (h : IO.FS.Stream) (out : IO.FS.Stream) : IO Unit := do
